@@ -35,6 +35,30 @@ pub struct World {
     quic: bool,
 }
 
+/// one process at a time plays the silent resolver (checks of several properties may run side by side)
+pub struct ResolverTurn(std::fs::File);
+impl ResolverTurn {
+    pub fn take() -> Option<ResolverTurn> {
+        use std::os::fd::AsRawFd;
+        let f = std::fs::OpenOptions::new().create(true).write(true).truncate(false).open(std::env::temp_dir().join("octo-verif-resolver.lock")).ok()?;
+        unsafe { libc::flock(f.as_raw_fd(), libc::LOCK_EX) };
+        Some(ResolverTurn(f))
+    }
+}
+impl Drop for ResolverTurn {
+    fn drop(&mut self) {
+        use std::os::fd::AsRawFd;
+        unsafe { libc::flock(self.0.as_raw_fd(), libc::LOCK_UN) };
+    }
+}
+
+/// can this process stand in for the resolver the system asks (127.0.0.1:53 named by /etc/resolv.conf, nobody there)?
+pub fn resolver_available() -> bool {
+    let _turn = ResolverTurn::take();
+    let names_local = std::fs::read_to_string("/etc/resolv.conf").map(|s| s.lines().filter(|l| l.trim_start().starts_with("nameserver")).all(|l| l.contains("127.0.0.1"))).unwrap_or(false);
+    names_local && std::net::UdpSocket::bind("127.0.0.1:53").is_ok()
+}
+
 pub struct TcpScript {
     pub kind: String,
     pub host: String,
@@ -752,6 +776,149 @@ impl World {
             }
         }
         "done".to_owned()
+    }
+
+    /// name resolution that does not answer (a resolver that is down or filtered: the common way a target is
+    /// "unresolvable"): `n` applications ask for names behind a resolver that stays silent, then a well-behaved flow to
+    /// an address must be served without waiting for those look-ups.  Everything on the measuring side runs on plain
+    /// threads with blocking sockets and its own clock, so that it sees what a user sees whatever the runtime under
+    /// test is doing.  The silent resolver is a socket on 127.0.0.1:53 (the resolver /etc/resolv.conf names here);
+    /// when it cannot be had the probe reports `n/a`.  At the end every question is answered (no such name), which
+    /// releases whoever was waiting.
+    pub fn resolver_stall(&self, n: usize, udp: bool) -> String {
+        use std::io::{Read, Write};
+        let _turn = ResolverTurn::take();
+        let names_local = std::fs::read_to_string("/etc/resolv.conf").map(|s| s.lines().filter(|l| l.trim_start().starts_with("nameserver")).all(|l| l.contains("127.0.0.1"))).unwrap_or(false);
+        if !names_local {
+            return "n/a".to_owned();
+        }
+        let Ok(dns) = std::net::UdpSocket::bind("127.0.0.1:53") else { return "n/a".to_owned() };
+        let _ = dns.set_read_timeout(Some(Duration::from_millis(50)));
+        let stop = Arc::new(std::sync::atomic::AtomicBool::new(false));
+        let questions: Arc<std::sync::Mutex<Vec<(Vec<u8>, std::net::SocketAddr)>>> = Arc::default();
+        let silent = {
+            let (stop, questions) = (stop.clone(), questions.clone());
+            let dns = dns.try_clone().unwrap();
+            std::thread::spawn(move || {
+                let mut buf = [0u8; 1500];
+                while !stop.load(std::sync::atomic::Ordering::SeqCst) {
+                    if let Ok((l, from)) = dns.recv_from(&mut buf) {
+                        questions.lock().unwrap().push((buf[..l].to_vec(), from));
+                    }
+                }
+            })
+        };
+        let cp = self.client_port;
+        fn socks5(c: &mut std::net::TcpStream, addr: &[u8]) -> bool {
+            use std::io::{Read, Write};
+            let mut b = [0u8; 10];
+            c.write_all(&[5, 1, 0]).is_ok() && c.read_exact(&mut b[..2]).is_ok() && c.write_all(&[&[5u8, 1, 0][..], addr].concat()).is_ok() && c.read_exact(&mut b).is_ok() && b[1] == 0
+        }
+        // the flows whose names meet the silent resolver, each from its own thread (none of them may hold up the
+        // measurement); they stay open until the measurement is over
+        let asked = Arc::new(std::sync::atomic::AtomicUsize::new(0));
+        let release = Arc::new(std::sync::atomic::AtomicBool::new(false));
+        let mut askers = vec![];
+        for i in 0..n {
+            let (asked, release) = (asked.clone(), release.clone());
+            askers.push(std::thread::spawn(move || {
+                let name = format!("slow-{}-{}.octo-verif.invalid", i, fresh_id());
+                if udp {
+                    let Ok(u) = std::net::UdpSocket::bind("127.0.0.1:0") else { return };
+                    let mut d = vec![0u8, 0, 0, 3, name.len() as u8];
+                    d.extend_from_slice(name.as_bytes());
+                    d.extend_from_slice(&[0, 53]);
+                    d.extend_from_slice(b"hello");
+                    if u.send_to(&d, ("127.0.0.1", cp)).is_ok() {
+                        asked.fetch_add(1, std::sync::atomic::Ordering::SeqCst);
+                    }
+                } else {
+                    let Ok(mut c) = std::net::TcpStream::connect(("127.0.0.1", cp)) else { return };
+                    let _ = c.set_read_timeout(Some(Duration::from_secs(3)));
+                    let mut a = vec![3u8, name.len() as u8];
+                    a.extend_from_slice(name.as_bytes());
+                    a.extend_from_slice(&[0, 80]);
+                    if socks5(&mut c, &a) && c.write_all(b"0123456789").is_ok() {
+                        asked.fetch_add(1, std::sync::atomic::Ordering::SeqCst);
+                    }
+                    while !release.load(std::sync::atomic::Ordering::SeqCst) {
+                        std::thread::sleep(Duration::from_millis(20));
+                    }
+                }
+            }));
+        }
+        // until the questions have reached the resolver (the look-ups are under way), at most 2 s
+        let t0 = std::time::Instant::now();
+        while questions.lock().unwrap().is_empty() && t0.elapsed() < Duration::from_secs(2) {
+            std::thread::sleep(Duration::from_millis(20));
+        }
+        std::thread::sleep(Duration::from_millis(150));
+        let under_way = questions.lock().unwrap().len();
+        // the well-behaved flow: to an address, nothing to resolve
+        let verdict = (|| -> String {
+            let Ok(target) = std::net::TcpListener::bind("127.0.0.1:0") else { return "no-loopback".to_owned() };
+            let tp = target.local_addr().unwrap().port();
+            let _ = target.set_nonblocking(true);
+            let served = std::thread::spawn(move || {
+                let t0 = std::time::Instant::now();
+                while t0.elapsed() < Duration::from_secs(14) {
+                    if let Ok((mut s, _)) = target.accept() {
+                        let _ = s.set_nonblocking(false);
+                        let _ = s.set_read_timeout(Some(Duration::from_secs(14)));
+                        let mut b = [0u8; 4];
+                        if s.read_exact(&mut b).is_ok() && &b == b"ping" {
+                            let _ = s.write_all(b"pong");
+                        }
+                        return;
+                    }
+                    std::thread::sleep(Duration::from_millis(5));
+                }
+            });
+            let t0 = std::time::Instant::now();
+            let Ok(mut c) = std::net::TcpStream::connect(("127.0.0.1", cp)) else { return "connect-failed".to_owned() };
+            let _ = c.set_read_timeout(Some(Duration::from_secs(14)));
+            let mut a = vec![1u8, 127, 0, 0, 1];
+            a.extend_from_slice(&tp.to_be_bytes());
+            let mut b = [0u8; 4];
+            let ok = socks5(&mut c, &a) && c.write_all(b"ping").is_ok() && c.read_exact(&mut b).is_ok() && &b == b"pong";
+            let ms = t0.elapsed().as_millis();
+            drop(c);
+            let _ = served.join();
+            if ok && ms < PROMPT.as_millis() { "served".to_owned() } else if ok { format!("waited:{}ms", ms) } else { format!("failed:{}ms", ms) }
+        })();
+        // answer every question (no such name) so that nobody goes on waiting, then give the port back
+        std::thread::sleep(Duration::from_millis(30));
+        stop.store(true, std::sync::atomic::Ordering::SeqCst);
+        let _ = silent.join();
+        for _ in 0..40 {
+            let qs: Vec<_> = std::mem::take(&mut *questions.lock().unwrap());
+            for (q, from) in &qs {
+                if q.len() >= 12 {
+                    let mut r = q.clone();
+                    r[2] = 0x81;
+                    r[3] = 0x83;
+                    let _ = dns.send_to(&r, from);
+                }
+            }
+            // retries and the second question of a pair arrive after the first answer
+            let mut buf = [0u8; 1500];
+            match dns.recv_from(&mut buf) {
+                Ok((l, from)) => questions.lock().unwrap().push((buf[..l].to_vec(), from)),
+                Err(_) => {
+                    if qs.is_empty() {
+                        break;
+                    }
+                }
+            }
+        }
+        release.store(true, std::sync::atomic::Ordering::SeqCst);
+        for a in askers {
+            let _ = a.join();
+        }
+        drop(dns);
+        std::thread::sleep(Duration::from_millis(100));
+        let asked = asked.load(std::sync::atomic::Ordering::SeqCst);
+        if asked == 0 || under_way == 0 { format!("n/a:asked={},questions={}", asked, under_way) } else { verdict }
     }
 
     pub fn alive(&self) -> String {
